@@ -28,6 +28,12 @@ BUDGET = {"quick": 40.0, "thorough": 600.0}
 
 
 # ----------------------------------------------------------------------
+def preload():
+    """import the library and the engine once in the parent so that forked
+    children (one per simulated run) do not pay for it again"""
+    from . import gen, world, probes, real, brute, geom, model  # noqa: F401
+
+
 def load_known():
     try:
         with open(KNOWN_FILE) as f:
@@ -70,7 +76,63 @@ def own_violations(w, prop):
     return [v for v in w.violations if prop in v.props]
 
 
+def isolated(fn, *args, limit=600):
+    """run fn(*args) in a forked child so that no process-global state of the
+    library (caches, memo tables) leaks from one simulated run into the next:
+    one seed = one exactly repeatable execution, also in a fresh interpreter"""
+    import pickle
+    r, wfd = os.pipe()
+    pid = os.fork()
+    if pid == 0:
+        code = 0
+        try:
+            os.close(r)
+            import signal as _s
+            _s.signal(_s.SIGTERM, _s.SIG_DFL)
+            try:
+                res = fn(*args)
+            except BaseException as e:  # noqa: BLE001
+                res = dict(harness_error=f"{type(e).__name__}: {e}\n{traceback.format_exc()}")
+            with os.fdopen(wfd, "wb") as f:
+                pickle.dump(res, f)
+        except BaseException:  # noqa: BLE001
+            code = 1
+        finally:
+            os._exit(code)
+    os.close(wfd)
+    data = b""
+    t0 = time.time()
+    import select
+    with os.fdopen(r, "rb") as f:
+        while True:
+            left = limit - (time.time() - t0)
+            if left <= 0:
+                try:
+                    os.kill(pid, 9)
+                except OSError:
+                    pass
+                os.waitpid(pid, 0)
+                return dict(harness_error=f"HARNESS-TIMEOUT: run exceeded {limit}s")
+            rd, _, _ = select.select([f], [], [], min(left, 5.0))
+            if rd:
+                chunk = f.read1(1 << 20) if hasattr(f, "read1") else f.read()
+                if not chunk:
+                    break
+                data += chunk
+    os.waitpid(pid, 0)
+    if not data:
+        return dict(harness_error="child died without a result")
+    return pickle.loads(data)
+
+
 def one_run(args):
+    res = isolated(_one_run, args)
+    if "harness_error" in res and "idx" not in res:
+        res = dict(idx=args[3], seed=f"{args[2]}/{args[0]}/{args[3]}", harness_error=res["harness_error"])
+    return res
+
+
+def _one_run(args):
     prop, tier, base_seed, idx, known_entries = args
     t0 = time.time()
     seed = f"{base_seed}/{prop}/{idx}"
@@ -136,18 +198,24 @@ def op_kind_pairs(ops):
 # shrinking (delta debugging on the operation list)
 
 def shrink(prop, cfg, ops, sig, known_entries, deadline):
-    def fails(cand):
+    def _fails(cand):
         try:
             w = execute(prop, cfg, cand, known_entries)
         except Exception:  # noqa: BLE001
             return False
         return any(v.sig == sig for v in own_violations(w, prop))
 
+    def fails(cand):
+        return isolated(_fails, cand) is True
+
     # cut everything after the failing step first
-    w = execute(prop, cfg, ops, known_entries)
-    vs = [v for v in own_violations(w, prop) if v.sig == sig]
-    if vs:
-        ops = ops[:vs[0].step + 1]
+    def _first(ops_):
+        w = execute(prop, cfg, ops_, known_entries)
+        vs = [v for v in own_violations(w, prop) if v.sig == sig]
+        return vs[0].step if vs else None
+    st = isolated(_first, ops)
+    if isinstance(st, int):
+        ops = ops[:st + 1]
     n = 2
     while len(ops) >= 2 and time.time() < deadline:
         chunk = max(1, len(ops) // n)
@@ -277,6 +345,7 @@ def replay_cross(r, quiet):
 # ----------------------------------------------------------------------
 def main_check(prop, tier, base_seed, budget, max_runs, workers, verbose=False):
     t0 = time.time()
+    preload()
     known_entries = [e for e in load_known() if e["property"] == prop]
     deadline = t0 + budget
     results = []
